@@ -201,7 +201,16 @@ pub(crate) fn get_worksheet_xml(
         row_style_dict.insert(row.r, row.clone());
     }
 
-    for (row_index, row_data) in worksheet.sheet_data.iter().sorted_by_key(|x| x.0) {
+    // Rows with cells and rows that only carry a height, a style or the hidden flag
+    let empty_row = HashMap::new();
+    let row_indices = worksheet
+        .sheet_data
+        .keys()
+        .chain(row_style_dict.keys())
+        .sorted()
+        .dedup();
+    for row_index in row_indices {
+        let row_data = worksheet.sheet_data.get(row_index).unwrap_or(&empty_row);
         let mut row_data_str: Vec<String> = vec![];
         for (column_index, cell) in row_data.iter().sorted_by_key(|x| x.0) {
             let column_name = number_to_column(*column_index).unwrap();
